@@ -510,6 +510,18 @@ func mustDependOn(v, target ssa.Value) bool {
 			// through a local object: a value read from a local variable depends on what was
 			// written into it before (a store, or copy(dst, src)); the result of a method depends
 			// on what earlier calls handed to the same receiver (`h.Write(b); h.Sum(nil)`)
+			// a slice of a local array (the argument list of a variadic call such as
+			// fmt.Sprintf) depends on what was stored into the elements before
+			if sl, isSlice := v.(*ssa.Slice); isSlice && !res {
+				if al, isAl := sl.X.(*ssa.Alloc); isAl {
+					for _, w := range writesInto(al) {
+						if instrDominates(w.at, ins) && f(w.src) {
+							res = true
+							break
+						}
+					}
+				}
+			}
 			if !res {
 				if ld, isLoad := v.(*ssa.UnOp); isLoad && ld.Op == token.MUL {
 					if al, isAl := ld.X.(*ssa.Alloc); isAl {
